@@ -401,6 +401,7 @@ func c14ExecConc(in Fields) (obs Fields) {
 	recs := make([][]c14Rec, T)
 	panicked := int32(0)
 	start := make(chan struct{})
+	var ready int32
 	var wg sync.WaitGroup
 	for t := 0; t < T; t++ {
 		wg.Add(1)
@@ -412,6 +413,13 @@ func c14ExecConc(in Fields) (obs Fields) {
 				}
 			}()
 			<-start
+			// spinning barrier: all goroutines leave together, so that the calls really overlap
+			atomic.AddInt32(&ready, 1)
+			for spin := 0; atomic.LoadInt32(&ready) < int32(T); spin++ {
+				if spin%2000 == 1999 {
+					runtime.Gosched()
+				}
+			}
 			for k, o := range progs[t] {
 				inv := atomic.AddInt64(&ctr, 1)
 				v := c14Call(st, o)
